@@ -24,7 +24,7 @@ RULE = (
     "if nothing was deliverable and, with nothing scheduled, not before the timeout), no request raises, after the drain everything "
     "was delivered exactly once. Non-trivial: >=2 sources pending at one request, a paste, or an action injected during a request."
     " Plus: an enumeration of every table sequence (>=3 bytes) placed so that its first j bytes end a 1024-byte read, for every j, in and outside paste mode, with the paste's keypress segmentation judged; select returning slightly after its deadline; requests made before the context is entered (pty); macros for an earlier event scheduled while blocked on a later one and for SIGINT during a blocked request; a share of cases under curtsies/curses naming judged through the keypress boundaries."
-    ' Also: the context left and entered again (with requests in between), bytes typed before the context is entered, disable_terminal_start_stop, constructor arguments positional/keyword/mixed and keynames as enum member, unget_bytes while other bytes are held, in all three naming modes (enumerated history cases); a request that retries a failing select forever is reported as request_never_returns; bytes missing from the stream when another reader looks are reported as vanished.'
+    ' Also: the context left and entered again (with requests in between), another Input on the same terminal entered and left inside the context (then a SIGINT or thread-safe event that must end a blocked request), bytes typed before the context is entered, disable_terminal_start_stop, constructor arguments positional/keyword/mixed and keynames as enum member, unget_bytes while other bytes are held, in all three naming modes (enumerated history cases); a request that retries a failing select forever is reported as request_never_returns; bytes missing from the stream when another reader looks are reported as vanished.'
 )
 ASSUMPTIONS = [
     "virtual-time faithfulness: callbacks only append to lists/write a pipe and signal handlers run between bytecodes of the main thread, so firing them on the same thread inside the blocking select or at a line boundary is a faithful 'other thread'",
